@@ -1,15 +1,17 @@
 #!/bin/bash
 # tools/seedtest.sh <seed-id> [prop] [tier]
-# Applies seeded/<id>/patch.diff to a scratch worktree of /repo's HEAD (outside /repo and /verif), runs the seed's demo and the
-# check against it (VF_REPO_DIR, the runner's internal knob), removes the worktree. /repo itself is never touched, so this can
-# run while other checks run. Prints one line: <seed> <prop> demo_rc check_rc first signatures.
+# Applies seeded/<id>/patch.diff (patch_rebased.diff when present) to a scratch worktree of /repo's HEAD (outside /repo and
+# /verif), runs the seed's demo and the check against it (VF_REPO_DIR, the runner's internal knob), removes the worktree.
+# /repo itself is never touched, so this can run while other checks run. Prints one line:
+# <seed> <prop> demo_rc check_rc first signatures.
+V=$(cd "$(dirname "$0")/.." && pwd)
 id=$1; prop=${2:-${id%%_*}}; tier=${3:-quick}
 wt=/var/tmp/seedwt-$id-$$
 git -C /repo worktree add -q --detach $wt HEAD || exit 9
 cleanup() { git -C /repo worktree remove --force $wt >/dev/null 2>&1; rm -rf $wt; }
 trap cleanup EXIT
-if ! git -C $wt apply --3way $( [ -f /verif/seeded/$id/patch_rebased.diff ] && echo /verif/seeded/$id/patch_rebased.diff || echo /verif/seeded/$id/patch.diff ) >/dev/null 2>&1; then echo "$id $prop APPLY-FAILED"; exit 8; fi
+if ! git -C $wt apply --3way $( [ -f $V/seeded/$id/patch_rebased.diff ] && echo $V/seeded/$id/patch_rebased.diff || echo $V/seeded/$id/patch.diff ) >/dev/null 2>&1; then echo "$id $prop APPLY-FAILED"; exit 8; fi
 demo_rc=NA
-if [ -f /verif/seeded/$id/demo.py ]; then (cd $wt && PYTHONPATH=$wt timeout 300 /venv/bin/python /verif/seeded/$id/demo.py >/dev/null 2>&1); demo_rc=$?; fi
-out=$(cd /verif && VF_REPO_DIR=$wt ./check $prop --tier $tier 2>&1); rc=$?
+if [ -f $V/seeded/$id/demo.py ]; then (cd $wt && PYTHONPATH=$wt timeout 300 /venv/bin/python $V/seeded/$id/demo.py >/dev/null 2>&1); demo_rc=$?; fi
+out=$(cd $V && VF_REPO_DIR=$wt ./check $prop --tier $tier 2>&1); rc=$?
 echo "$id $prop demo_rc=$demo_rc check_rc=$rc :: $(echo "$out" | grep -A1 VIOLATION | grep signature | head -3 | tr '\n' ' ' | cut -c1-400) $(echo "$out" | grep INCONCLUSIVE | head -1 | cut -c1-200)"
